@@ -8,7 +8,7 @@ that make history matter (DESIGN.md §3 C10):
 import ast
 from sa.canon import U
 from sa.world import get_world
-from sa import expr, paths, dispatch, hrules, cursor
+from sa import expr, paths, dispatch, hrules, cursor, partial
 from sa.model import walk_no_nested
 from sa.report import AnalysisError
 
@@ -133,6 +133,9 @@ def run(ctx):
     ctx.guard('J-ALIAS', 'aliases', check_alias, ctx, w)
     ctx.floor('J-ALIAS', 1)
     ctx.floor('J-SHARED', 7)
+    ctx.rule('J-PARTIAL', 'no container kept on an object is observable half-filled: not filled between yields, and incremental caches are read by key only')
+    ctx.guard('J-PARTIAL', 'partial containers', partial.check_partial, ctx, w)
+    ctx.floor('J-PARTIAL', 9)
 
 
 # nested parse at a position unrelated to the caller's sequential parse: must run under preserve_stream_pos
@@ -528,6 +531,39 @@ def check_keys(ctx, w):
                        msg='the cached value depends on a parameter that is not part of the cache key: a later call with another '
                            'value of it gets the stale answer', line=n.lineno, sample='%s: value depends only on %s' % (f.construct, sorted(frontier)))
     ctx.analysed['memo_sites'] = n_sites
+    # one cache, one key, one producer: stores into the same private container under the same key expression must store the same
+    # expression.  Two different producers under one key (the table of this file / of the supplementary file, both by bare offset)
+    # mean the key does not say which of them answered first.  Also covers the `v = C.get(K); if v is None: v = C[K] = E` idiom.
+    n_prod = 0
+    for f in w.model.library_funcs():
+        alias = {}
+        for st in walk_no_nested(f.node):
+            if isinstance(st, ast.Assign) and len(st.targets) == 1 and isinstance(st.targets[0], ast.Name) and isinstance(st.value, ast.Attribute):
+                alias.setdefault(st.targets[0].id, set()).add(U(st.value))
+        groups = {}
+        for st in walk_no_nested(f.node):
+            if not isinstance(st, ast.Assign):
+                continue
+            for t in st.targets:
+                if not isinstance(t, ast.Subscript):
+                    continue
+                c = t.value
+                res = U(c)
+                if isinstance(c, ast.Name):
+                    if len(alias.get(c.id, ())) != 1:
+                        continue
+                    res = list(alias[c.id])[0]
+                last = res.rsplit('.', 1)[-1]
+                if '.' not in res or not last.startswith('_') or last.startswith('__'):
+                    continue
+                groups.setdefault((res, U(t.slice)), []).append(st)
+        for (res, key), sts in sorted(groups.items()):
+            vals = sorted(set(U(x.value) for x in sts))
+            n_prod += 1
+            ctx.ob('J-KEY', f.construct, 'cache %s[%s] has one producer' % (res, key), len(vals) == 1, got=vals[:3], line=sts[0].lineno,
+                   msg='the same private container receives, under the same key expression, values from different producers: whichever '
+                       'ran first answers for the other as well', sample='%s: %s[%s] = %s' % (f.construct, res, key, vals[0][:60]))
+    ctx.analysed['memo_producer_sites'] = n_prod
     # lazy slots: if self._x is None: self._x = f()  -- f takes no parameter of the enclosing function
     for f in w.model.library_funcs():
         params = set(a.arg for a in f.node.args.args if a.arg not in ('self', 'cls'))
